@@ -2764,9 +2764,13 @@ func (ir *iteratorRecord) iterate(step func(Value)) {
 		})
 		if ret != nil {
 			if asUncatchableException(ret) == nil {
-				_ = tryFunc(func() {
+				ret1 := tryFunc(func() {
 					ir.returnIter()
 				})
+				if asUncatchableException(ret1) != nil {
+					// an interrupt (or a stack overflow) while closing the iterator must not be swallowed
+					panic(ret1)
+				}
 			}
 			panic(ret)
 		}
